@@ -31,6 +31,9 @@ fn windows() -> Vec<[R; 6]> {
             }
         }
     }
+    // planes at negative distances (both behind the eye; one on either side): frustum only demands near <= far
+    let extra: Vec<[R; 6]> = out.iter().step_by(61).flat_map(|w| [[w[0], w[1], w[2], w[3], (-w[5].0, w[5].1), (-w[4].0, w[4].1)], [w[0], w[1], w[2], w[3], (-w[4].0, w[4].1), w[5]]]).collect();
+    out.extend(extra);
     out
 }
 
@@ -48,7 +51,7 @@ fn boxes<T: Tier>(rep: &mut Report) {
     rep.cases(
         "ortho+frustum",
         T::NAME,
-        &format!("{} parameter tuples (l<r, b<t, 0<n<f, asymmetric) x 27 probes of the box (ortho) and 18 of the near/far rectangles (frustum)", ws.len()),
+        &format!("{} parameter tuples (l<r, b<t, n<f: 729 with 0<n, 24 with n<f<0 or n<0<f; asymmetric) x 27 probes of the box (ortho) and 18 of the near/far rectangles (frustum)", ws.len()),
         ws.len(),
         Guard::states(100).distinct(100),
         |i, ctx| {
@@ -136,7 +139,12 @@ fn ortho_unordered<T: Tier>(rep: &mut Report) {
             let lerp = |a: T::M, b: T::M, u: i64| -> T::M { a + (b - a) * (T::M::int(u + 1) * half) };
             let mo = ortho(l, r, b, t, n, f);
             let mi: Matrix4<T> = Ortho { left: l, right: r, bottom: b, top: t, near: n, far: f }.into();
-            same_slice(ctx, &key("Ortho::into=ortho"), &flat_m(m4(mi)), &flat_m(m4(mo)));
+            if T::EXACT {
+                same_slice(ctx, &key("Ortho::into=ortho"), &flat_m(m4(mi)), &flat_m(m4(mo)));
+            } else {
+                let (fi, fo) = (flat_m(m4(mi)), flat_m(m4(mo)));
+                ctx.check((0..16).all(|k| (fi[k].f() - fo[k].f()).abs() <= 8.0 * T::U * fo[k].f().abs()), &key("Ortho::into=ortho"), || format!("Ortho{{..}}.into() = {:?}, ortho(..) = {:?}", fi, fo));
+            }
             for u in -1..=1 {
                 for v in -1..=1 {
                     for s in -1..=1 {
@@ -212,7 +220,8 @@ fn fov_cases<T: Tier + Dom<M = Sh>>(rep: &mut Report) {
             let exp = [-xmax, xmax, -ymax, ymax, Sh::exact(n.f()), Sh::exact(f.f())];
             eq_slice::<T>(ctx, &key("to_perspective"), &got, &exp, 4.0);
             let m2: Matrix4<T> = pf.into();
-            same_slice(ctx, &key("PerspectiveFov::into=perspective"), &flat_m(m4(m2)), &flat_m(m4(m)));
+            // the struct route describes the same matrix (the same numbers in this implementation; the statement needs the same map)
+            eq_mc::<T, 4>(ctx, &key("PerspectiveFov::into=perspective"), m4(m2), wmodel, 4.0);
         },
     );
     // planar
@@ -253,29 +262,37 @@ fn fov_cases<T: Tier + Dom<M = Sh>>(rep: &mut Report) {
                     let (ndc, wv, tp) = images(m, p);
                     eq_slice::<T>(ctx, &key("planar/window-to-square"), &[ndc[0], ndc[1]], &[Sh::exact(u).with_abs_err(8.0), Sh::exact(v).with_abs_err(8.0)], 4.0);
                     eq_slice::<T>(ctx, &key("planar/transform_point"), &[tp[0], tp[1]], &[Sh::exact(u).with_abs_err(8.0), Sh::exact(v).with_abs_err(8.0)], 4.0);
-                    eq_slice::<T>(ctx, &key("planar/w=1-on-the-window"), &[wv], &[one.with_abs_err(4.0)], 4.0);
+                    // (the statement fixes the map, not the scale of the matrix: w on the window only has to be one and the
+                    // same non-zero number, which the comparison of the divided coordinates above already uses)
+                    ctx.check(wv.f() != 0.0 && wv.f().is_finite(), &key("planar/w-finite-non-zero-on-the-window"), || format!("w = {:?} on the projection plane", wv));
+                    let _ = one;
                 }
             }
             // z = -n -> -1, z = -f -> +1 (any x, y)
             let inv_f = tanh * Sh::exact(2.0) / Sh::exact(h.f());
             for (z, s) in [(n, -1.0f64), (f, 1.0)] {
                 let p = [c(0.3), c(-0.7), -z];
-                let (ndc, _wv, _tp) = images(m, p);
+                let (ndc, _wv, tp) = images(m, p);
                 // conditioning: w = 1 + z*inv_f may be small
                 let wm = one + Sh::exact(z.f()) * inv_f;
                 let cond = 1.0 + (1.0 + z.f().abs() * inv_f.v.abs()) / wm.v.abs().max(1e-300) + (n.f().abs() + f.f().abs()) / (n.f() - f.f()).abs();
                 if cond < 1e4 {
                     eq_slice::<T>(ctx, &key("planar/plane-to-clip-z"), &[ndc[2]], &[Sh::exact(s).with_abs_err(16.0 * cond + inv_f.e)], 8.0);
+                    eq_slice::<T>(ctx, &key("planar/plane-to-clip-z/transform_point"), &[tp[2]], &[Sh::exact(s).with_abs_err(16.0 * cond + inv_f.e)], 8.0);
                 }
             }
-            // focal point: w = 0 at z = +(h/2) cot(fovy/2)
+            // focal point: the centre of projection (0, 0, +(h/2) cot(fovy/2)) is where w = 0 and where every ray meets:
+            // its image is (0, 0, *, 0), whatever the overall scale of the matrix
+            let a = m4(m);
+            same_slice(ctx, &key("planar/w-depends-on-z-only"), &[a[0][3], a[1][3]], &[T::zero(), T::zero()]);
             if tanh.v != 0.0 {
-                let a = m4(m);
-                let c2r3 = a[2][3].f();
-                let z_focal = -1.0 / c2r3;
+                let z_focal = -a[3][3].f() / a[2][3].f();
                 let tol = K_TOL * T::U * (16.0 + tanh.e / tanh.v.abs()) * focal_behind.abs();
                 ctx.check((z_focal - focal_behind).abs() <= tol, &key("planar/focal-point"), || format!("w = 0 at z = {z_focal}, expected (h/2)cot(fovy/2) = {focal_behind}"));
-                same_slice(ctx, &key("planar/w-depends-on-z-only"), &[a[0][3], a[1][3], a[3][3]], &[T::zero(), T::zero(), T::one()]);
+                let img = m * mk_v4([T::zero(), T::zero(), c(focal_behind), T::one()]);
+                let scale = a.iter().flat_map(|col| col.iter()).map(|x| x.f().abs()).fold(0.0, f64::max) * (1.0 + focal_behind.abs());
+                let tol_c = K_TOL * T::U * (16.0 + tanh.e / tanh.v.abs()) * scale;
+                ctx.check(img.x.f().abs() <= tol_c && img.y.f().abs() <= tol_c && img.w.f().abs() <= tol_c, &key("planar/focal-point-on-the-axis"), || format!("M * (0, 0, {focal_behind}, 1) = {:?}: the centre of projection is not on the view axis at that depth", img));
             }
         },
     );
@@ -284,7 +301,9 @@ fn fov_cases<T: Tier + Dom<M = Sh>>(rep: &mut Report) {
 /// tuples violating exactly one stated precondition must panic; valid ones must not
 fn reject<T: Tier + Dom<M = Sh>>(rep: &mut Report) {
     let c = |x: f64| num_traits::cast::<f64, T>(x).unwrap();
-    let pi_t: f64 = Rad::<T>::turn_div_2().0.f();
+    // the smallest value of the scalar type that is not below pi: f32(pi) exceeds pi, but f64(pi) = pi - 1.2e-16 lies
+    // *inside* (0, pi), so the statement does not say whether it must be rejected
+    let pi_t: f64 = { let p = Rad::<T>::turn_div_2().0.f(); if T::NAME == "D" { f64::from_bits(p.to_bits() + 1) } else { p } };
     #[derive(Clone)]
     struct Case {
         name: String,
